@@ -152,3 +152,37 @@ func refUpper(s string) []rune {
 	}
 	return out
 }
+
+// A reused object: credentials changed after construction (or an object built as a literal) — every Hash() answers for
+// the credentials the object holds at that moment.
+func H_C02_v2_reused_object() {
+	user1, _, _ := symASCII("user1", 2)
+	dom1, _, _ := symASCII("domain1", 2)
+	pw1, _, _ := symASCII("pw1", 2)
+	user, _, userUp16 := symASCII("user", vParam("ulen"))
+	domain, dom16, _ := symASCII("domain", vParam("dlen"))
+	pw, pw16, _ := symASCII("pw", vParam("plen"))
+	var server, client [8]byte
+	copy(server[:], vBytes("server", 8))
+	copy(client[:], vBytes("client", 8))
+	var n *NTLMv2
+	if vParam("literal") == 1 {
+		n = &NTLMv2{ServerChallenge: server, ClientChallenge: client}
+	} else {
+		var err error
+		n, err = NewNTLMv2(dom1, user1, pw1, server, client)
+		vCheck(err == nil, "v2r/constructor-ok")
+		_, err = n.Hash()
+		vCheck(err == nil, "v2r/first-hash-ok")
+	}
+	n.Domain, n.Username, n.Password = domain, user, pw
+	resp, err := n.Hash()
+	vCheck(err == nil && len(resp) >= 44, "v2r/hash-ok")
+	if err != nil || len(resp) < 44 {
+		return
+	}
+	nt := refMD4(pw16)
+	ntowf := hmacMD5(nt[:], userUp16, dom16)
+	vCheck(vBytesEq(resp[:16], hmacMD5(ntowf, server[:], resp[16:])), "v2r/NTProofStr-verifies-under-the-current-credentials")
+	vCover("end")
+}
